@@ -431,8 +431,52 @@ for _ in range(150):
         ", ".join("(%s, %s)" % (LN(v), Lres(rs)) for v, rs in vr.items()), Lres(chip_res), getitem, ", ".join(lcs),
         ", ".join("(%s, %s)" % (LN(v), L(xy)) for v, xy in pl.items())), want)
 
+
+# ---- sixth round: the `do`-subset (harness/gen/pydo.py -> Gen/PyFunTables.lean): routing_tree_to_tables ----
+from rig.routing_table.utils import routing_tree_to_tables as _rttt
+from rig.routing_table import Routes as _Routes
+from collections import OrderedDict as _OD
+class _FakeTree(object):
+    """an object whose traverse() yields the given items (the traversal itself is modelled by hand)"""
+    def __init__(self, items): self.items = items
+    def traverse(self): return iter([(d, xy, set(o)) for d, xy, o in self.items])
+def _lopt(d): return "none" if d is None else "(some %d)" % int(d)
+_CANON = ("(fun (t : List ((Nat × Nat) × List (List Nat × Nat × Nat × List (Option Nat)))) => t.map (fun ct => (ct.1, ct.2.map "
+          "(fun e => (e.1.mergeSort (fun a b => decide (a ≤ b)), e.2.1, e.2.2.1, (e.2.2.2.map (fun (o : Option Nat) => match o with "
+          "| none => 0 | some r => r + 1)).mergeSort (fun a b => decide (a ≤ b)))))))")
+for _ in range(150):
+    nn = rng.randint(0, 4)
+    pool = [(rng.randint(0, 2), rng.choice([15, 255])) for _k in range(rng.randint(1, 2))]
+    routes, net_keys, lroutes = _OD(), {}, []
+    shared = [sorted(rng.sample(range(0, 9), rng.randint(0, 3))) for _k in range(3)]
+    for net in rng.sample(range(10), nn):
+        items = []
+        for _i in range(rng.randint(0, 5)):
+            d = None if rng.random() < 0.35 else _Routes(rng.choice([0, 1, 2, 3, 4, 5] * 6 + [7]))
+            xy = (rng.randint(0, 1), rng.randint(0, 1))
+            outs = rng.choice(shared) if rng.random() < 0.8 else sorted(rng.sample(range(0, 9), rng.randint(0, 3)))
+            items.append((d, xy, [_Routes(o) for o in outs]))
+        routes[net] = _FakeTree(items)
+        if rng.random() < 0.97:
+            net_keys[net] = rng.choice(pool)
+        lroutes.append("(%d, [%s])" % (net, ", ".join("(%s, (%d, %d), [%s])" % (
+            _lopt(d), xy[0], xy[1], ", ".join(str(int(o)) for o in outs)) for d, xy, outs in items)))
+    def hr():
+        out = _rttt(routes, net_keys)
+        return "[" + ",".join("((%d,%d),[%s])" % (xy[0], xy[1], ",".join(
+            "([%s],%d,%d,[%s])" % (",".join(str(int(r)) for r in sorted(e.route)), e.key, e.mask,
+                                  ",".join(str(v) for v in sorted(0 if q is None else int(q) + 1 for q in e.sources)))
+            for e in es)) for xy, es in out.items()) + "]"
+    try:
+        want = "Except.ok " + hr()
+    except Exception as e:
+        a = [e.key, e.mask, e.x, e.y] if type(e).__name__ == "MultisourceRouteError" else []
+        want = 'Except.error ("%s",[%s])' % (type(e).__name__, ",".join(str(int(x)) for x in a))
+    add("(routing_tree_to_tables [%s] [%s]).map %s" % (
+        ", ".join(lroutes), ", ".join("(%d, (%d, %d))" % (n, k, m) for n, (k, m) in net_keys.items()), _CANON), want)
+
 cases = [c for c in cases if c[1] != ""]
-src = "import RigModel.Gen.PyFun\nimport RigModel.Props.C16Gen\nimport RigModel.Props.C08Gen\nopen Rig.Gen Rig.Gen.PyFun\n" + "".join("#eval %s\n" % c[0] for c in cases)
+src = "import RigModel.Gen.PyFun\nimport RigModel.Gen.PyFunTables\nimport RigModel.Props.C16Gen\nimport RigModel.Props.C08Gen\nopen Rig.Gen Rig.Gen.PyFun\n" + "".join("#eval %s\n" % c[0] for c in cases)
 HERE = os.path.dirname(os.path.dirname(os.path.abspath(__file__)))
 TMP = os.path.join(HERE, "lean", ".lake", "DiffTest.lean")
 open(TMP, "w").write(src)
